@@ -78,6 +78,8 @@ fn main() {
         let mut r = Rng::for_case(a.seed, id);
         let width = match r.below(20) { 0 => 1 + r.below(2) as usize, 1..=9 => 3 + r.below(10) as usize, _ => 13 + r.below(28) as usize };
         let height = if r.chance(1, 40) { 0 } else { 1 + r.below(12) as usize };
+        // the window may have had another height when the cursor was moved (it is redrawn after a resize)
+        let height0 = if r.chance(1, 3) { 1 + r.below(14) as usize } else { height };
         let reverse = r.chance(3, 10);
         let tabstop = *r.pick(&[1usize, 2, 3, 4, 8]);
         let no_hscroll = r.chance(3, 20);
@@ -125,7 +127,7 @@ fn main() {
             10 => Ev::EvActScrollRight(1 + r.below(6) as i32),
             _ => Ev::EvActScrollLeft(1 + r.below(6) as i32),
         }).collect();
-        let input = format!("w={} h={} reverse={} tabstop={} no_hscroll={} keep_right={} reader_items={} items={:?} ranges={:?} ops={:?}", width, height, reverse, tabstop, no_hscroll, keep_right, use_reader, texts, mrs, ops);
+        let input = format!("w={} h={} (h while moving: {}) reverse={} tabstop={} no_hscroll={} keep_right={} reader_items={} items={:?} ranges={:?} ops={:?}", width, height, height0, reverse, tabstop, no_hscroll, keep_right, use_reader, texts, mrs, ops);
 
         let (texts2, mrs2, ops2) = (texts.clone(), mrs.clone(), ops.clone());
         let res = guarded(AssertUnwindSafe(move || {
@@ -165,7 +167,7 @@ fn main() {
             sel.append_sorted_items(mitems);
             // a first draw tells the selection its height
             {
-                let mut cv0 = Rec::new(width, height);
+                let mut cv0 = Rec::new(width, height0);
                 let sel_ref = AssertUnwindSafe(&sel);
                 let cv_ref = AssertUnwindSafe(&mut cv0);
                 let _ = guarded(move || { let _ = sel_ref.0.draw(cv_ref.0); });
